@@ -2,12 +2,14 @@
 
 spec -> impl : TLC explores MC_Subset (every composite graph on NG glyphs with a bounded number of components,
                self reference and cycles included, x every list of distinct glyph ids starting with 0 x
-               numberOfHMetrics), one action per loop step of GlyfTable::subset and of create_hmtx_table, checks
+               numberOfHMetrics, component records from templates: every transform kind, argument width, flag;
+               instructions), one action per loop step of GlyfTable::subset and of create_hmtx_table, checks
                the design invariants of Subset.tla (requested ids stay the prefix, closure complete and nothing
-               else, components renumbered, old/new maps inverse, SubsetRelation) and prints one CASE per
+               else, components renumbered, every other component field kept, old/new maps inverse, SubsetRelation) and prints one CASE per
                finished run. The harness synthesizes the glyf font of each case, calls allsorts' subset::subset,
                reads the output with independent readers and compares with TLC's prescription by JSON equality.
-impl -> spec : repository fonts (glyf, CFF name-keyed / CID-keyed / with subroutines, CFF2; OpenType, re-wrapped as
+impl -> spec : repository fonts (glyf, CFF name-keyed / CID-keyed / with subroutines, CFF2) and synthesized CFF-family fonts
+               whose glyphs carry operands on every Type 2 number-encoding boundary (OpenType, re-wrapped as
                WOFF / WOFF2, the repository's own WOFF / WOFF2 files) x glyph id lists from patterns through
                subset::subset and subset::prince::subset; a sample of the generated cases too. Judged by
                Trace_Subset (SubsetRelation on recorded facts).
@@ -25,8 +27,15 @@ ASSUMPTIONS = [
     "any order after the requested glyphs is accepted; the model's machine appends a component when first met, as allsorts does",
     "outlines are compared as the command sequences allsorts' own visitors deliver on the source and on the output "
     "(coordinates rounded to 1/16384 unit); a `close` that closes nothing is not part of an outline",
-    "for glyf fonts the independent reader additionally demands equal records: contours point by point, components in "
-    "everything but the (renumbered) glyph id; hinting instructions and bounding boxes are not part of the outline",
+    "for glyf fonts the independent reader additionally demands equal records: contours point by point, instructions, components "
+    "field by field (flags that bear on the glyph, both arguments, every F2Dot14 value of the transform) in everything but the "
+    "(renumbered) glyph id; bytes or words for the arguments is an encoding choice (Dev_ArgWidth), bounding boxes and reserved "
+    "flag bits are not compared",
+    "the outline of a generated composite is stated as its leaves under the placement (flags, arguments, transform) of every "
+    "component passed (Dev_OutlineAsPlacementPath: finer than geometry, exact 2.14 composition does not fit TLC's integers); the "
+    "geometric comparison is made by the judge on what allsorts' outline visitor delivers for source and output",
+    "the value of a hint operand, the width operand of a converted charstring and DICT operands do not show in an outline: the "
+    "operand writers are exercised through path coordinates on every number-encoding boundary",
     "CFF2 sources are compared at the default instance; subsetting a variable CFF2 font is refused by allsorts "
     "(MissingVariationStore), which is outside 'a successful subset'",
     "a cyclic or too deeply nested composite has no outline on either side and only its metrics are compared",
